@@ -21,6 +21,9 @@ class Models:
         self.hooks_setattr = []
         self.hooks_call = []
         self.hooks_instantiate = []
+        # decorators defined in the repository whose wrapper code is executed (not modelled): context guards
+        self.executable_decorators = {"prevent_basis_context", "enforce_basis_context", "prevent_energy_units_context",
+                                      "enforce_energy_units_context"}
         self.key_universes = []
         # "relpath::NAME" -> value standing for a module-level constant
         self.const_overrides = {"quantarhei/__init__.py::COMPLEX": ModRef("numpy.complex128"),
@@ -427,6 +430,9 @@ class Models:
         if V.sort_of(obj) is not None or obj is None:
             # python scalars / None have no such attribute (e.g. `val.shape` in the scalar branch of a try)
             raise RaiseSignal("AttributeError", line=line)
+        if isinstance(obj, (list, tuple, dict, str, int, float)) and not hasattr(type(obj), name):
+            # duck-typing probes such as `try: params.keys()` on a list
+            raise RaiseSignal("AttributeError", line=line)
         raise Unsupported("attribute %s of %r @%s" % (name, type(obj).__name__, line))
 
 
@@ -800,6 +806,10 @@ def _install(M):
             return ex_.call(f, pa + list(a2), kw, l2)
         return Builtin("partial", call)
 
+    @reg("functools.wraps")
+    def _wraps(ex, a, k, l):
+        return Builtin("wraps(identity)", lambda ex_, a_, k_, l_: a_[0])
+
     @reg("copy.copy")
     def _copy(ex, a, k, l):
         """shallow copy: a new object sharing the field values"""
@@ -1149,6 +1159,10 @@ def _install(M):
     _elementwise("numpy.sin", lambda x: V.ufun("sin", x))
     _elementwise("numpy.cos", lambda x: V.ufun("cos", x))
     _elementwise("numpy.tanh", lambda x: V.ufun("tanh", x))
+    _elementwise("numpy.tan", lambda x: V.ufun("tan", x))
+    _elementwise("numpy.arctan", lambda x: V.ufun("arctan", x))
+    _elementwise("numpy.sinh", lambda x: V.ufun("sinh", x))
+    _elementwise("numpy.cosh", lambda x: V.ufun("cosh", x))
     _elementwise("numpy.log", lambda x: V.ufun("log", x))
     _elementwise("numpy.sign", lambda x: ite(compare(">", x, 0), 1, ite(compare("<", x, 0), -1, 0)))
 
@@ -1254,6 +1268,12 @@ def _install(M):
             return Builtin("spline.antiderivative()", evaluate)
         return Obj("UnivariateSpline(model)", {"antiderivative": Builtin("spline.antiderivative", antiderivative)})
     M.table["scipy.interpolate.interpolate.UnivariateSpline"] = M.table["scipy.interpolate.UnivariateSpline"]
+
+    def _spec_prim(ex, a, k, l):
+        """spec-language name of the same function: spline_primitive(t, y)"""
+        t, y = a[0], a[1]
+        return SymArr(t.shape, "real", re=_prim(t.terms()[0], y.terms()[0]), name="prim")
+    M.table["spline_primitive"] = Builtin("spec:spline_primitive", _spec_prim)
 
     M.table["numpy.float64"] = ModRef("numpy.float64")
     for cname in ("pi", "c", "e", "hbar", "k", "h", "epsilon_0", "N_A"):
